@@ -1,3 +1,4 @@
+import NanoVerif.Model.ColrColor
 import NanoVerif.Props.C06
 import NanoVerif.Props.C01
 import NanoVerif.Props.C02
@@ -137,3 +138,43 @@ example : WFAt ⟨1/10, 0, 0, -1/10, 0, 80⟩ Aff.id
   norm_num [C06.Invertible, Aff.det, Aff.mul, Aff.id, Aff.composeLtr, Aff.inverseEps, qabs, eps, FLOAT_EPSILON, mkQ_eq]
 
 end NanoVerif.C13
+
+namespace NanoVerif.ColrColor
+
+/-- the alpha painted is the paint's alpha times the entry's own — in fonts with one palette and in fonts with several alike
+(the `var(--colorN, c)` fallback is written opaque, the alpha goes into the opacity attribute). -/
+theorem alpha_is_product (palette0 : List (Nat × Nat × Nat × Nat)) (n idx : Nat) (alpha : Q) (c : Col) (r g b a : Nat)
+    (hf : idx ≠ FOREGROUND) (he : palette0[idx]? = some (r, g, b, a)) (h : colorOf palette0 n idx alpha = .ok c) :
+    c.alpha = alpha * (a : Q) / 255 ∧ (c.r, c.g, c.b) = (r, g, b) ∧ (c.slot = none ↔ n ≤ 1) := by
+  unfold colorOf at h
+  rw [if_neg hf, he] at h
+  simp only [Except.ok.injEq] at h
+  subst h
+  refine ⟨rfl, rfl, ?_⟩
+  by_cases hn : n > 1
+  · simp [hn]
+  · simp [hn]; omega
+
+/-- the number of palettes decides the slot only, never colour or alpha -/
+theorem palette_count_irrelevant (palette0 : List (Nat × Nat × Nat × Nat)) (n m idx : Nat) (alpha : Q) (c d : Col)
+    (h1 : colorOf palette0 n idx alpha = .ok c) (h2 : colorOf palette0 m idx alpha = .ok d) :
+    c.alpha = d.alpha ∧ c.r = d.r ∧ c.g = d.g ∧ c.b = d.b := by
+  unfold colorOf at h1 h2
+  by_cases hf : idx = FOREGROUND
+  · rw [if_pos hf] at h1 h2
+    simp only [Except.ok.injEq] at h1 h2
+    subst h1; subst h2; exact ⟨rfl, rfl, rfl, rfl⟩
+  · rw [if_neg hf] at h1 h2
+    cases he : palette0[idx]? with
+    | none => rw [he] at h1; cases h1
+    | some e =>
+      obtain ⟨r, g, b, a⟩ := e
+      rw [he] at h1 h2
+      simp only [Except.ok.injEq] at h1 h2
+      subst h1; subst h2; exact ⟨rfl, rfl, rfl, rfl⟩
+
+example : (match colorOf [(0, 0, 0, 255), (255, 0, 0, 128)] 2 1 (1/2) with | .ok c => decide (c = ⟨255, 0, 0, 64/255, some 1⟩) | _ => false) = true := by
+  decide +kernel
+
+
+end NanoVerif.ColrColor
